@@ -188,6 +188,73 @@ int main(int argc, char ** argv) {
                 else if (e_tb) e_tb->stepUpdateQ(s, a, s1, r); else e_is->stepUpdateQ(s, a, s1, r);
                 if ((i + 1) % every == 0 || i + 1 == n) { dumpTable(o, base->getQFunction()); dumpTraces(o, base->getTraces()); }
             }
+        } else if (kind == "ps" || kind == "psq") {
+            // ps  S A gamma theta T[a][s][s1] R[s][a] nops (s <s> <a> | b <N> | B <N>)*
+            // psq S A gamma theta T R : every pair stepped once, then batches until the queue is empty
+            size_t S = c.nextSize(), A = c.nextSize();
+            double gamma = c.nextDouble(), theta = c.nextDouble();
+            Matrix3D T(A, Matrix2D(S, S)); Matrix2D R(S, A);
+            for (size_t a = 0; a < A; ++a) readMatrix(c, T[a]);
+            readMatrix(c, R);
+            MDP::Model model(NO_CHECK, S, A, std::move(T), std::move(R), gamma);
+            PrioritizedSweeping<MDP::Model> ps(model, theta, 1);
+            auto dump = [&]() {
+                dumpTable(o, ps.getQFunction());
+                const auto & vf = ps.getValueFunction();
+                for (size_t s = 0; s < S; ++s) o << vf.values[s];
+                for (size_t s = 0; s < S; ++s) o << vf.actions[s];
+                o << (size_t) ps.queue_.size();
+                for (auto it = ps.queue_.begin(); it != ps.queue_.end(); ++it) o << it->stateAction.first << it->stateAction.second << it->priority;
+                o << (size_t) ps.queueHandles_.size();
+            };
+            if (kind == "ps") {
+                size_t nops = c.nextSize();
+                for (size_t i = 0; i < nops; ++i) {
+                    const std::string op = c.next();
+                    if (op == "s") { size_t s = c.nextSize(), a = c.nextSize(); ps.stepUpdateQ(s, a); }
+                    else if (op == "b") {            // N single pops, reporting queue_.top() before each
+                        size_t N = c.nextSize(); ps.setN(1);
+                        std::vector<size_t> tops;
+                        for (size_t j = 0; j < N && !ps.queue_.empty(); ++j) {
+                            auto t = ps.queue_.top(); tops.push_back(t.stateAction.first); tops.push_back(t.stateAction.second);
+                            ps.batchUpdateQ();
+                        }
+                        o.list(tops);
+                    } else if (op == "B") { size_t N = c.nextSize(); ps.setN((unsigned) N); ps.batchUpdateQ(); }
+                    else throw std::logic_error("unknown ps op " + op);
+                    dump();
+                }
+            } else {
+                for (size_t s = 0; s < S; ++s) for (size_t a = 0; a < A; ++a) ps.stepUpdateQ(s, a);
+                ps.setN(1000);
+                size_t rounds = 0;
+                while (ps.getQueueLength() > 0 && rounds < 2000) { ps.batchUpdateQ(); ++rounds; }
+                o << rounds;
+                dump();
+            }
+        } else if (kind == "dyna") {
+            // dyna S A alpha gamma nops ( s <s> <a> <s1> <r> | b <N> (<s1> <r>)*N )*
+            size_t S = c.nextSize(), A = c.nextSize();
+            double alpha = c.nextDouble(), gamma = c.nextDouble();
+            ScriptModel model{S, A, gamma};
+            DynaQ<ScriptModel> d(model, alpha, 1);
+            size_t nops = c.nextSize();
+            for (size_t i = 0; i < nops; ++i) {
+                const std::string op = c.next();
+                if (op == "s") {
+                    size_t s = c.nextSize(), a = c.nextSize(), s1 = c.nextSize(); double r = c.nextDouble();
+                    d.stepUpdateQ(s, a, s1, r);
+                } else if (op == "b") {
+                    size_t N = c.nextSize();
+                    model.script.clear(); model.pos = 0; model.asked.clear();
+                    for (size_t j = 0; j < N; ++j) { size_t s1 = c.nextSize(); double r = c.nextDouble(); model.script.emplace_back(s1, r); }
+                    d.N = (unsigned) N;          // DynaQ declares setN but never defines it
+                    d.batchUpdateQ();
+                    o << (size_t) model.asked.size();
+                    for (auto & [s, a] : model.asked) o << s << a;
+                } else throw std::logic_error("unknown dyna op " + op);
+                dumpTable(o, d.getQFunction());
+            }
         } else throw std::logic_error("unknown case kind " + kind);
     });
 }
